@@ -2,6 +2,7 @@ package props
 
 import (
 	"fmt"
+	"regexp"
 	"strings"
 	"time"
 
@@ -20,11 +21,11 @@ import (
 var c20Ops = []string{"none", "dup-id", "dup-destination", "shadow-id-before", "shadow-id-after", "shadow-all-after", "second-issuer-last", "second-issuer-first", "issuer-after-status",
 	"nested-issuer", "foreign-ns-issuer", "comment-in-issuer", "cdata-in-issuer", "charref-in-issuer", "whitespace-around-issuer", "xml-decl-and-comment", "dup-version", "dup-inresponseto", "issuer-empty-then-real", "trailing-issuer", "pi-in-issuer", "pi-before-issuer-text", "envelope-issuer-differs",
 	"encrypted-issuer-after-issuer", "encrypted-issuer-last", "encrypted-issuer-first", "encrypted-status-last",
-	"nsdecl-id-after", "nsdecl-id-before", "nsdecl-all-after", "second-root-trailing", "second-root-leading"}
+	"nsdecl-id-after", "nsdecl-id-before", "nsdecl-all-after", "second-root-trailing", "second-root-leading", "nsdecl-id-used-in-keyinfo"}
 
 // operators an attacker can apply to a SIGNED envelope as well: namespace declarations for prefixes
 // nobody uses are dropped by exclusive canonicalisation, so the signature still verifies
-var c20SignedSafe = map[string]bool{"nsdecl-id-after": true, "nsdecl-id-before": true, "nsdecl-all-after": true, "second-root-trailing": true, "second-root-leading": true}
+var c20SignedSafe = map[string]bool{"nsdecl-id-after": true, "nsdecl-id-before": true, "nsdecl-all-after": true, "second-root-trailing": true, "second-root-leading": true, "nsdecl-id-used-in-keyinfo": true}
 
 // the SPs behind the router share one decryption key (anyone can encrypt to its certificate)
 const c20SPKey = 4
@@ -322,6 +323,15 @@ func c20Apply(xml, op string, m *world.LResponse, other string) (string, bool) {
 			return decl + body + evil, true
 		}
 		return decl + evil + body, true
+	case "nsdecl-id-used-in-keyinfo":
+		// the declared prefix IS used, but only inside ds:KeyInfo, which no signature covers (and which the
+		// enveloped-signature transform removes before canonicalisation)
+		ki := regexp.MustCompile(`<([A-Za-z0-9]+:)?KeyInfo\b[^>]*>`).FindStringIndex(xml)
+		if ki == nil {
+			return xml, false
+		}
+		x2 := xml[:ki[1]] + `<ID:hint/>` + xml[ki[1]:]
+		return strings.Replace(x2, idAttr(q), idAttr(q)+` xmlns:ID=`+q+`_evil`+q, 1), true
 	case "nsdecl-id-after":
 		return strings.Replace(xml, idAttr(q), idAttr(q)+` xmlns:ID=`+q+`_evil`+q, 1), true
 	case "nsdecl-id-before":
